@@ -44,7 +44,8 @@ TRUSTED_BASE = [
 ]
 ASSUMPTIONS = [
     "a command's resource holding starts at dispatch to RUNNING and ends when mark_completed is written "
-    "(conservative: the real process lives strictly inside that window)",
+    "(conservative: the real process lives strictly inside that window; observed on every command of the B3 "
+    "builds: the step row is RUNNING when Executor._run_command is entered and when it returns)",
     "asyncio runs callbacks to completion (job_loop is the only starter of tasks; structure facts in GenLimits.v; "
     "the event order of the real loop is replayed by the loop model on every run)",
     "commands are only launched from Executor.execute_job inside a task started by Builder.start_task",
@@ -557,7 +558,8 @@ def _b3_runs(ctx):
                 ("amend-slot:njob=2", LP.scenario_amend_slot(2, 2, with_static=True), 2),
                 ("amend-slot:small-file", LP.scenario_amend_slot(1, 1, big=False), 1),
                 ("resource-amend", LP.scenario_resource_amend(), 2),
-                ("hold-amend", LP.scenario_hold_amend(), 2)]
+                ("hold-amend", LP.scenario_hold_amend(), 2),
+                ("over-release", LP.scenario_over_release(), 3)]
     for name, (proj, avail, din), njob in directed:
         for schedule in (None, {"seed": 1, "points": ["start", "end"]}):
             res, rec = LP.run_build(proj, njob, avail, schedule)
@@ -906,6 +908,14 @@ def oracle(ctx):
         ctx.count("B3:hold_rpcs", sum(1 for c in res.commands for x in c["rpc"] if x[0] == "hold_dispatch"))
         if res.error:
             ctx.count("B3:serve_error")
+        # assumption "a command executes only while its step row is RUNNING" (what ties the stamps to the SUM of
+        # RESOURCE_UNAVAILABLE and to FILL_SAFE_UPDATE), observed on the implementation
+        ctx.count("B3:command_windows", len(r["rec"].windows))
+        for lbl, job_i, st0, st1 in r["rec"].windows:
+            if st0 != "RUNNING" or st1 != "RUNNING":
+                found.append(("command-outside-running-window",
+                              f"the command of {lbl} (job {job_i}) was launched with its step {st0} and returned with it {st1}"))
+                break
         for k, detail in found:
             s = f"serve:{k}"
             if k == "njob-exceeded":
